@@ -216,25 +216,32 @@ def popParents (depth : Int) : List Parent → List Parent
   | [] => []
   | p :: ps => if p.depth < depth then p :: ps else popParents depth ps
 
-/-- the body of `FilterUnit::read_entry` after the raw read, followed by the user's
-`require_entry` if the entry is wanted -/
-def readEntry (m : Mode) (u : UnitHdr) (st : Deps × List Parent) (e : Entry) : Out (Deps × List Parent) :=
-  let parents := popParents e.depth st.2
-  let parent := parents.head?
-  let parents' := if e.hasChildren then ⟨e.depth, e.off, e.tag⟩ :: parents else parents
+/-- the dependency part of `FilterUnit::read_entry` once the parent is known: attribute references,
+the edge to the parent, the edge from the parent for member-like children, `add_entry`; followed by
+the user's `require_entry` if the entry is wanted -/
+def recordEntry (m : Mode) (u : UnitHdr) (d : Deps) (e : Entry) (parent : Option Parent) : Out Deps :=
   let entryOff := u.base + e.off
   let deps := e.attrs.flatMap (attrDeps u)
-  let finish (d : Deps) (deps : List Off) : Out (Deps × List Parent) := do
+  let finish (d : Deps) (deps : List Off) : Out Deps := do
     let d ← d.addEntry m entryOff deps
-    pure (if e.required then d.requireEntry entryOff else d, parents')
+    pure (if e.required then d.requireEntry entryOff else d)
   match parent with
-  | none => finish st.1 deps
+  | none => finish d deps
   | some p =>
     let parentOff := u.base + p.off
     if parentAllowsChildEdge p.tag && hasBackEdge e.tag e.hasDecl then do
-      let d ← st.1.addEdge parentOff entryOff
+      let d ← d.addEdge parentOff entryOff
       finish d (deps ++ [parentOff])
-    else finish st.1 (deps ++ [parentOff])
+    else finish d (deps ++ [parentOff])
+
+/-- the parent stack after an entry: `if entry.has_children() { parents.push(...) }` -/
+def pushParent (e : Entry) (parents : List Parent) : List Parent :=
+  if e.hasChildren then ⟨e.depth, e.off, e.tag⟩ :: parents else parents
+
+/-- the body of `FilterUnit::read_entry` after the raw read -/
+def readEntry (m : Mode) (u : UnitHdr) (st : Deps × List Parent) (e : Entry) : Out (Deps × List Parent) :=
+  let parents := popParents e.depth st.2
+  (recordEntry m u st.1 e parents.head?).map (fun d => (d, pushParent e parents))
 
 def foldOut {σ α : Type} (f : σ → α → Out σ) : σ → List α → Out σ
   | s, [] => .ok s
@@ -350,7 +357,7 @@ inductive Outcome where
   | convErr (e : ConvErr)
   | panic (why : String)
   | diverge
-  deriving Repr
+  deriving Repr, DecidableEq
 
 /-- filter, reachability, reservation by unit, conversion -/
 def run (m : Mode) (units : List (UnitHdr × List Entry)) : Outcome :=
